@@ -51,6 +51,7 @@ pub fn apply_fsop(sb: &Path, op: &Value) -> i64 {
             }
             "fifo" => libc::mkfifo(p(1).as_ptr(), a.get(2).and_then(|m| m.as_u64()).unwrap_or(0o644) as u32) as i64,
             "sock" => libc::mknod(p(1).as_ptr(), libc::S_IFSOCK | 0o644, 0) as i64,
+            "chr" => libc::mknod(p(1).as_ptr(), libc::S_IFCHR | 0o666, libc::makedev(1, 3)) as i64,
             "hardlink" => libc::link(p(2).as_ptr(), p(1).as_ptr()) as i64,
             "chown" => libc::lchown(p(1).as_ptr(), a[2].as_u64().unwrap() as u32, a[3].as_u64().unwrap() as u32) as i64,
             "chmod" => libc::chmod(p(1).as_ptr(), a[2].as_u64().unwrap() as u32) as i64,
